@@ -31,3 +31,20 @@ template class basic_json_reader<wchar_t, string_source<wchar_t>>;
 template class basic_json_cursor<wchar_t, string_source<wchar_t>>;
 #endif
 }
+
+// source readers (used by the binary parsers; instantiated here so that include/jsoncons/source.hpp is analysed)
+void jcsa_use_sources(std::istream& is, const std::vector<uint8_t>& v, std::basic_istream<char>& cs)
+{
+    using namespace jsoncons;
+    binary_stream_source s1(is);
+    bytes_source s2(v);
+    std::vector<uint8_t> buf;
+    source_reader<binary_stream_source>::read(s1, buf, 10);
+    source_reader<bytes_source>::read(s2, buf, 10);
+    std::string text;
+    stream_source<char> s3(cs);
+    source_reader<stream_source<char>>::read(s3, text, 10);
+    uint8_t tmp[8];
+    (void)s1.read(tmp, 8); (void)s1.peek(); s1.ignore(1); (void)s1.read_span(4, buf);
+    (void)s2.read(tmp, 8); (void)s2.peek(); s2.ignore(1); (void)s2.read_span(4, buf);
+}
